@@ -190,18 +190,24 @@ def _op_post(c, v0, v1, r):
     return d
 
 
-def _op_native(c, p):
+def _op_obj(c, p):
     import numpy as np
     from taurex.opacity.opacity import Opacity
-    g = np.array(p['self']['wavenumberGrid'], dtype=float)
-    base = np.array(p['_xs'], dtype=float)
 
     class _O(Opacity):
-        wavenumberGrid = property(lambda self: g)
+        wavenumberGrid = property(lambda self: self._vg)
 
         def compute_opacity(self, T, P, filt):
-            return base[filt] * (1.0 + T / 1000.0)
-    o = _quiet(_O.__new__(_O))
+            return self._vbase[filt] * (1.0 + T / 1000.0)
+    return _quiet(_O.__new__(_O))
+
+
+def _op_call(c, o, p):
+    """one request on the opacity object o (histories: the same object serves several requests; its native grid and
+    cross-sections are those of the current inputs, whatever else the object keeps from earlier calls is its own)"""
+    import numpy as np
+    o._vg = np.array(p['self']['wavenumberGrid'], dtype=float)
+    o._vbase = np.array(p['_xs'], dtype=float)
     return np.asarray(o.opacity(p['temperature'], p['pressure'], np.array(p['wngrid'], dtype=float))), p
 
 
@@ -234,7 +240,7 @@ def _op_gen(rng):
                 xsbase=[10 ** rng.uniform(-3, 0) for _ in range(N)])
 
 
-OPU = Unit('C13', OPA + 'opacity', _op_params_conc, pre=_op_pre, post=_op_post, native=_op_native, gen=_op_gen, bounds=[dict(N=3, W=2)],
+OPU = Unit('C13', OPA + 'opacity', _op_params_conc, pre=_op_pre, post=_op_post, native_obj=_op_obj, native_call=_op_call, gen=_op_gen, bounds=[dict(N=3, W=2)],
            abstract={'call:compute_opacity': _h_compute_opacity}, inline=['wavenumberGrid'], safety=('index', 'sorted'),
            result=lambda ex, st, v0: st.alloc(ex.c, ex.c.fresh_array('op', (ex.c.fresh('Wr'),))),
            short='Opacity.opacity', timeout_ms=30000,
